@@ -23,6 +23,17 @@ Theorem C08_define_constants : forall l1 l2 : list (N * nat),
 Proof. exact define_constants_perm. Qed.
 Print Assumptions C08_define_constants.
 
+(* REFUTED without the hypothesis NoDup names: there are a constant table with
+   two entries of one name and different widths and two orders of ranging it for
+   which different widths are wired (sort by name ties, first entry wins).  The
+   hypothesis is therefore CHECKED on the implementation after every
+   compilation (harness oracle c08:DefineConstants:sort-key-not-unique on
+   ssa.Program.Constants, and the last two answers of run_c08). *)
+Theorem C08_define_constants_ties_refuted :
+  exists l1 l2 : list (N * nat), Permutation l1 l2 /\ define_constants l1 <> define_constants l2.
+Proof. exact define_constants_ties_refuted. Qed.
+Print Assumptions C08_define_constants_ties_refuted.
+
 (* LookupOnly: for every element type, predicate and pair of permuted lists in
    which at most one element satisfies the predicate, the first match is the
    same. *)
